@@ -506,6 +506,34 @@ func fullStack(e *env, prop string, mode int) {
 			}
 		}
 	}
+	if replayArg(e) == "" && (mode == 1 || mode == 2 || mode == 9) && !chunkedL1 && !batchedTiers {
+		// directed: a command that changes a key's expiry (touch / get-and-touch, to "never", to a
+		// shorter and to a longer time), then the clock passes the key's EARLIER expiry and the new one:
+		// both tiers must have taken the new expiry (random histories rarely let time pass at the right moment)
+		for _, port := range []string{"main", "batch"} {
+			for _, kd := range []string{"touch", "gat"} {
+				for _, nt := range []uint32{0, 4, 100} {
+					for _, locked := range []bool{false, true} {
+						k := []byte(fsKeys[0])
+						mk := func(q stack.Req, pt string, now int64) fsStep { return fsStep{Port: pt, Now: now, Req: q} }
+						get := stack.Req{Kind: "get", Items: []stack.GItem{{Key: k, Opaque: 3}}}
+						c := fsCase{Deploy: "l1l2+batch", Locked: locked, Proto: "bin", Keys: fsKeys}
+						c.Steps = []fsStep{
+							mk(stack.Req{Kind: "set", Key: k, Data: []byte("value"), Flags: 7, TTL: 10, Opaque: 1}, "main", t0),
+							mk(get, "main", t0+1),
+							mk(stack.Req{Kind: kd, Key: k, TTL: nt, Opaque: 2}, port, t0+2),
+							mk(get, "main", t0+8),
+							mk(get, "main", t0+13),
+							mk(get, "batch", t0+14),
+							mk(get, "main", t0+150),
+						}
+						cases = append(cases, c)
+						w.Count("directed=expiry-change-then-time-passes")
+					}
+				}
+			}
+		}
+	}
 	mode2NT = mode == 2
 	for _, c := range cases {
 		var ref [][]byte
